@@ -67,7 +67,7 @@ func gen(g *mon.Gen) {
 	}
 	for i := 0; i < g.Pick(150, 10000); i++ {
 		g.Emit(&Case{Kind: "stream", Mode: []string{"dev", "typed-error", "generic-error"}[i%3], Seed: rng.Int63(), N: 2 + rng.Intn(6)})
-		if i < g.Pick(2, 12) {
+		if i < g.Pick(3, 12) {
 			g.Emit(&Case{Kind: "stalled-reader", Mode: "dev", Seed: rng.Int63(), N: i})
 		}
 	}
@@ -358,6 +358,12 @@ func runStalled(c *Case, r *mon.Rec, rng *rand.Rand) {
 	dev := simdev.New(uint64(c.Seed), "srv")
 	l := srvx.NewMemListener()
 	s := &server.Server{OnErrorFunc: func(error) {}, WriteTimeout: 150 * time.Millisecond}
+	patient := c.N%3 == 2
+	if patient {
+		// a third of the runs: the server is configured to be patient with slow readers (write timeout 2 s) and the client
+		// dawdles for 120 ms only - nothing is torn, both replies arrive complete
+		s.WriteTimeout = 2 * time.Second
+	}
 	ctx, cancel := context.WithCancel(context.Background())
 	served := make(chan error, 1)
 	go func() { served <- s.Serve(ctx, l, srvx.DevHandler(dev, nil)) }()
@@ -396,6 +402,9 @@ func runStalled(c *Case, r *mon.Rec, rng *rand.Rand) {
 	if c.N%2 == 0 {
 		stall = 220 * time.Millisecond
 	}
+	if patient {
+		stall = 120 * time.Millisecond
+	}
 	time.Sleep(stall)
 	// the client comes back: it sends its next request and reads whatever the connection still delivers
 	q2 := specref.Req{FC: 3, Unit: q1.Unit, TID: 0x2212, Addr: 7, Qty: 3}
@@ -413,7 +422,14 @@ func runStalled(c *Case, r *mon.Rec, rng *rand.Rand) {
 	r.Cover("stalled-reader", fmt.Sprintf("bytes-after-the-stall=%v", len(rest) > 0))
 	// acceptable: the torn reply and nothing else (connection closed), or - had the write not timed out - the complete stream
 	want2 := simdev.New(uint64(c.Seed), "srv").Handle(q2).Encode(specref.TCP)
-	if bytes.HasPrefix(want1, all) || bytes.Equal(all, append(append([]byte{}, want1...), want2...)) {
+	whole := append(append([]byte{}, want1...), want2...)
+	if patient {
+		if !bytes.Equal(all, whole) {
+			r.Violate(c, "reply-torn-within-write-timeout", mon.Attrs{"where": "stalled-reader"}, fmt.Sprintf("Server.WriteTimeout is 2 s; the client read 2 bytes, paused 120 ms and read on: it received %d bytes % x, want both replies complete (%d bytes)", len(all), head(all), len(whole)))
+		}
+		return
+	}
+	if bytes.HasPrefix(want1, all) || bytes.Equal(all, whole) {
 		return
 	}
 	r.Violate(c, "reply-after-torn-reply", mon.Attrs{"where": "stalled-reader"}, fmt.Sprintf("the client read 2 bytes of a %d-byte reply, stalled %v (write timeout 150 ms) and came back: the connection then delivered % x - not a prefix of the first reply and not the two complete replies", len(want1), stall, head(all)))
@@ -499,6 +515,34 @@ func runStream(c *Case, r *mon.Rec, rng *rand.Rand) {
 	}
 	if len(out) > 0 && (garbage == "" || garbage == "huge-length") {
 		r.Violate(c, "surplus-reply-bytes", mon.Attrs{"where": "stream"}, fmt.Sprintf("% x", head(out)))
+	}
+	// a connection that starts with eight bytes that are not Modbus TCP (a port scanner, an HTTP probe) and then carries
+	// a valid request in its next read: whatever the server says to the first, the request is answered
+	vf := mkFrame(rng, "valid", 3)
+	vf.mode = "dev"
+	hdr := []byte{byte(rng.Intn(256)), byte(rng.Intn(256)), 0, 0, 0, 6, byte(rng.Intn(256)), 3}
+	switch rng.Intn(3) {
+	case 0:
+		hdr[2+rng.Intn(2)] = byte(1 + rng.Intn(255)) // protocol id
+	case 1:
+		hdr[4], hdr[5] = 0, byte(rng.Intn(2)) // length field below the minimum
+	default:
+		hdr[7] = 0 // function code 0
+	}
+	dev2 := simdev.New(uint64(c.Seed)^0x51, "srv")
+	outs2, _, ptxt2 := srvx.Feed(handler(dev2, func(uint16) string { return "dev" }), [][]byte{hdr, vf.b})
+	r.Eval(1)
+	if ptxt2 != "" {
+		r.Violate(c, "assembler-panics", mon.Attrs{"class": "not-modbus-then-valid", "mode": "dev"}, ptxt2)
+		return
+	}
+	want2 := simdev.New(uint64(c.Seed)^0x51, "srv").Serve(specref.TCP, vf.b)
+	var got2 []byte
+	if len(outs2) == 2 {
+		got2 = outs2[1]
+	}
+	if !bytes.Equal(got2, want2) {
+		r.Violate(c, "no-reply", mon.Attrs{"where": "after-not-modbus-header", "class": "valid", "mode": "dev"}, fmt.Sprintf("first read: eight bytes that are not Modbus TCP (% x); second read: the valid request % x: the second read produced % x, want % x", hdr, head(vf.b), head(got2), head(want2)))
 	}
 }
 
